@@ -350,6 +350,24 @@ def stream_histories(ctx, r):
         lines += ["sp_sort 0", "get 0", "get 1"]
         cases.append(Case(lines, "focused-history"))
     cases += opaque_space_cases(ctx, r, scale(ctx, 200, 3000))
+    # an object is REUSED after a parse that failed late (scheme, credentials, host, port already stored): the residue of
+    # the failed parse must not show in the next URL, in its use as a base, or in later setters
+    FAIL_LATE = ["http://h:8x/", "https://h:65536/", "http://u:p@h:99999/p?q#f", "ws://h:-1", "file://a b/x", "file://h:80/x", "file://[::1/x", "non-spec://h:x/", "http://a<b/",
+                 "http://[1::2::3]/", "http://xn--/", "https://1.2.3.4.5/", "http://u@/", "ftp://%zz/", "a://[/", "http://h:8080x", "non-spec://u:p@h:70000/"]
+    NEXT_OK = ["non-spec:/a/b", "mailto:a@b", "data:x", "web+demo:/.//not-a-host/", "a:/..//p", "file:///x", "http://other/", "blob:x", "a:b#f", "non-spec:/p?q", "a://h2", "file:C|/x"]
+    for rep in range(scale(ctx, 400, 5000)):
+        lines = []
+        if r.random() < 0.5: lines.append("parse 0 %s -" % tok(r.choice(START_URLS)))
+        if r.random() < 0.3: lines.append("sp 0")
+        for _ in range(r.randint(1, 2)):
+            lines.append("parse 0 %s -" % tok(r.choice(FAIL_LATE)))
+        lines.append("parse 0 %s -" % tok(r.choice(NEXT_OK)))
+        k = r.random()
+        if k < 0.4: lines += ["parse 1 %s 0" % tok(r.choice(["x/y", "../z", "?q", "#f", "", "//h3/p"])), "get 1"]
+        elif k < 0.7: lines.append("set 0 %s %s" % (r.choice(["pathname", "host", "hostname", "port", "username", "search"]), tok(r.choice(["//a/b", "x", "h9", "81", "u", "/.//x", ""]))))
+        else: lines += ["copy 2 0", "get 2", "reparse 3 0 -"]
+        lines.append("get 0")
+        cases.append(Case(lines, "reuse-after-failed-parse"))
     # a COPY of the params object of a URL is a detached value: it outlives its source (which is destroyed, replaced
     # by construction, moved from or re-parsed), is edited afterwards, and the source (if alive) must not change
     for rep in range(scale(ctx, 300, 4000)):
